@@ -590,6 +590,7 @@ pub fn shrink_opts(o: &Opts) -> Vec<Opts> {
     clear!(version_names, None);
     clear!(fallback_to_usage, false);
     clear!(cargo, None);
+    clear!(max_width, None);
     for r in shrink_shape(&o.root) {
         let mut x = o.clone();
         x.root = r;
